@@ -87,7 +87,79 @@ def gen_arith(rng, size):
 # candle manager
 
 
-def _mgr_case(rng, size, tf, fill, ha, life, extra_passes=False, malformed=False):
+# the values of hexital.utils.timeframe.TimeFrame: `tfenum=1` makes the implementation side hand the timeframe over as that
+# enum member instead of the string (the model reads the same `tf=`)
+TF_ENUM = {"S1", "S5", "S10", "S15", "S30", "T1", "T5", "T10", "T15", "T30", "T45", "H1", "H2", "H3", "H4", "D1", "D7"}
+
+
+def _tfenum(rng, tf, p=0.3):
+    return " tfenum=1" if (tf in TF_ENUM and rng.random() < p) else ""
+
+
+def _iso_enc(rng, enc, p):
+    """with probability p: the timestamps travel as ISO-8601 strings (in dicts / into the Candle constructor)"""
+    if rng.random() < p:
+        return rng.choice(["isodict", "isodict", "isocandle"]) + " iso=" + rng.choice("TSB")
+    return enc
+
+
+def _csv(t):
+    return wire.enc_candle_tokens(t).replace(" ", ",")
+
+
+def _twin(rng, t):
+    """a candle to compare with the held one: the same values, the same values in the other number type (10 == 10.0), or
+    ONE of the compared attributes changed (each of timestamp / open / high / low / close / volume decides on its own)"""
+    r = rng.random()
+    t = list(t)
+    if r < 0.35:
+        return tuple(t)
+    k = rng.randrange(6)
+    if r < 0.55:
+        v = t[k]
+        if k > 0 and isinstance(v, float) and v == int(v):
+            t[k] = int(v)
+        elif k > 0 and isinstance(v, int) and not isinstance(v, bool):
+            t[k] = float(v)
+        return tuple(t)
+    if k == 0:
+        t[0] = None if (t[0] is None or rng.random() < 0.2) else t[0] + rng.choice([1, -1, 60])
+    else:
+        t[k] = t[k] + rng.choice([1, -1, 0.5, 0.0001])
+    return tuple(t)
+
+
+def _mgr_probes(rng, stream_so_far, tf, fill, life):
+    """read-only manager accessors: find_indicator (truthiness of the newest-first readings), CandleManager.__eq__
+    (lifespan / timeframe string / fill only), Candle.__eq__ (two held candles, a held one against a fresh one, against a non-candle)"""
+    out = []
+    for _ in range(rng.randint(1, 3)):
+        out.append("macc find name=" + rng.choice(["close", "volume", "volume", "positive", "negative", "open", "realbody", "shadow_upper", "Nope"]))
+    k = rng.random()
+    if k < 0.35:
+        o_tf, o_fill, o_life = tf, fill, life
+    else:
+        o_tf = rng.choice([tf, tf, None, "T5", "H1", "T60", "S60", "T1", (tf or "T1").lower()])
+        o_fill = fill if rng.random() < 0.7 else not fill
+        o_life = life if rng.random() < 0.6 else rng.choice([None, 0, 60, 3600, (life or 0) + 1])
+    out.append(f"macc eq tf={o_tf or '-'} fill={int(bool(o_fill))} life={'-' if o_life is None else o_life}" + _tfenum(rng, (o_tf or ""), 0.4))
+    if rng.random() < 0.15:
+        out.append("macc eq other=int")
+    m = len(stream_so_far)
+    for _ in range(rng.randint(1, 3)):
+        i = rng.choice([0, -1, -2, 1, 2, rng.randint(-m - 1, m)])   # the manager may hold fewer candles than it was fed
+        r = rng.random()
+        if r < 0.4:
+            out.append(f"macc ceq i={i} j={rng.choice([i, i, 0, -1, rng.randint(-m - 1, m), i - m if i >= 0 else i + m])}")
+        elif r < 0.9 and m:
+            j = rng.randrange(m)
+            out.append(f"macc ceq i={rng.choice([j, j, j - m, i])} c={_csv(_twin(rng, stream_so_far[j]))}")
+        else:
+            out.append(f"macc ceq i={i} other=int")
+    return out
+
+
+def _mgr_case(rng, size, tf, fill, ha, life, extra_passes=False, malformed=False, accessors=False):
     n = rng.randint(0, size)
     step = None
     if tf is not None:
@@ -115,21 +187,48 @@ def _mgr_case(rng, size, tf, fill, ha, life, extra_passes=False, malformed=False
             stream[i] = (stream[i - 1][0] - rng.randint(1, 10**4),) + stream[i][1:]
             meta["malformed"] = "out-of-order"
         else:
+            if rng.random() < 0.3:
+                i = rng.choice([0, n - 1])   # the first candle (collapse gives up) / the newest one (trim has no reference time)
             stream[i] = (None,) + stream[i][1:]
             meta["malformed"] = "none-ts"
     sched, shape = gen.gen_schedule(rng, n)
     parts = gen.split_by(stream, sched)
     head = f"tf={tf or '-'} fill={int(fill)} ha={int(ha)} life={'-' if life is None else life}"
+    if accessors or malformed:
+        head += _tfenum(rng, tf)
     lines = [f"mgr {head} " + wire.enc_candles(parts[0]), "msnap"]
+    fed = list(parts[0])
+    if accessors and rng.random() < 0.5:
+        lines += _mgr_probes(rng, fed, tf, fill, life)
     for p in parts[1:]:
         enc = rng.choice(["candle", "candle", "dict", "list", "tlist"])
+        if accessors:
+            enc = _iso_enc(rng, enc, 0.2)
         single = int(len(p) == 1 and rng.random() < 0.5)
+        if accessors and rng.random() < 0.06:
+            # append([]) returns before anything happens
+            lines.append(f"mapp enc={rng.choice(['candle', 'dict', 'list'])} single=0 n=0")
+            lines.append("msnap")
         lines.append(f"mapp enc={enc} single={single} " + wire.enc_candles(p))
         lines.append("msnap")
+        fed += list(p)
+        if accessors and rng.random() < 0.35:
+            lines += _mgr_probes(rng, fed, tf, fill, life)
         if extra_passes and rng.random() < 0.3:
             for _ in range(rng.randint(1, 3)):
                 lines.append("mtasks")
             lines.append("msnap")
+    if accessors and rng.random() < 0.15:
+        # the public tag setter, at the end of the scenario: a candle is tagged once (a Heikin-Ashi manager has tagged them all:
+        # CandleAlreadyTagged); on another manager the tag is state the next pass has to live with
+        lines += [f"mtag i={rng.choice([-1, 0, 1, -2])}", "msnap", "mtasks", "msnap"]
+        if parts[1:] and rng.random() < 0.5:
+            lines += ["mapp enc=candle single=0 " + wire.enc_candles([(t[0] + (gen.tf_seconds(tf) if tf else 60),) + t[1:] for t in stream[-1:] if t[0] is not None]), "msnap"]
+    if malformed and ("malformed" not in meta or rng.random() < 0.2):
+        # something append() does not accept at all (a float / a list of strings): TypeError, the scenario ends there
+        lines.append(f"mapp enc={rng.choice(['badobj', 'badlist'])} single=0 " + wire.enc_candles(stream[-1:]))
+        lines.append("msnap")
+        meta["malformed"] = meta.get("malformed", "") + "+not-candles"
     meta.update({"n": n, "tf": tf, "fill": fill, "ha": ha, "life": life, "schedule": shape, "appends": len(parts) - 1})
     return lines, meta
 
@@ -166,13 +265,14 @@ def gen_mgr_ha(rng, size):
 def gen_mgr_state(rng, size):
     tf = gen.gen_timeframe(rng, allow_none=True)
     life = _life(rng, tf) if rng.random() < 0.3 else None
-    return _mgr_case(rng, size, tf, rng.random() < 0.4 and tf is not None, rng.random() < 0.4, life, extra_passes=True)
+    return _mgr_case(rng, size, tf, rng.random() < 0.4 and tf is not None, rng.random() < 0.4, life, extra_passes=True, accessors=True)
 
 
 @component("manager.malformed")
 def gen_mgr_malformed(rng, size):
     tf = gen.gen_timeframe(rng, allow_none=True)
-    return _mgr_case(rng, max(4, size // 3), tf, False, rng.random() < 0.3, None, malformed=True)
+    life = _life(rng, tf) if rng.random() < 0.25 else None
+    return _mgr_case(rng, max(4, size // 3), tf, False, rng.random() < 0.3, life, malformed=True)
 
 
 # --------------------------------------------------------------------------------------
@@ -196,9 +296,9 @@ def _ind_case(rng, size, spec, programs=False, mgr=True):
         spec = dict(spec, life=span)
     sched, shape = gen.gen_schedule(rng, n)
     parts = gen.split_by(stream, sched)
-    lines = [f"ind {specs.spec_params(spec)} " + wire.enc_candles(parts[0]), "icalc", "isnap"]
+    lines = [f"ind {specs.spec_params(spec)}{_tfenum(rng, tf)} " + wire.enc_candles(parts[0]), "icalc", "isnap"]
     for p in parts[1:]:
-        enc = rng.choice(["candle", "candle", "candle", "dict", "list", "tlist"])
+        enc = _iso_enc(rng, rng.choice(["candle", "candle", "candle", "dict", "list", "tlist"]), 0.08)
         single = int(len(p) == 1 and rng.random() < 0.5)
         lines.append(f"iapp enc={enc} single={single} " + wire.enc_candles(p))
         lines.append("isnap")
@@ -298,13 +398,15 @@ def gen_hexital(rng, size, ha_ok=False, life_ok=False, programs=True, enc=None):
     stream, meta = gen.gen_stream(rng, n, step=max(1, base_step // rng.choice([1, 1, 2, 5])))
     sched, shape = gen.gen_schedule(rng, n)
     parts = gen.split_by(stream, sched)
-    enc = enc or rng.choice(["candle", "dict", "list", "tlist"])
+    enc = enc or _iso_enc(rng, rng.choice(["candle", "dict", "list", "tlist"]), 0.12)
     ha = ha_ok and rng.random() < 0.3
     life = base_step * rng.choice([0, 1, 3, 5, 20, 60]) + rng.choice([0, 0, 1, base_step // 2]) if (life_ok and rng.random() < 0.3) else None
     lines = []
     member_names = []
     for sp in members:
-        lines.append(f"hmember {specs.spec_params(sp)} form={rng.choice(['obj', 'obj', 'dict'])}")
+        # form=used: an Indicator object that has already run once on its own (empty) candles, so its helper indicators exist and
+        # have to follow it to the Hexital's manager
+        lines.append(f"hmember {specs.spec_params(sp)}{_tfenum(rng, sp.get('tf'))} form={rng.choice(['obj', 'obj', 'dict', 'used'])}")
         try:
             member_names.append(_probe_name(sp))
         except Exception:  # noqa
@@ -313,7 +415,9 @@ def gen_hexital(rng, size, ha_ok=False, life_ok=False, programs=True, enc=None):
         member_names = ["SMA_5"]
     # Hexital-level gap filling also without an own timeframe: it then applies to the members' managers
     hfill = rng.random() < 0.3 and (htf is not None or any(m.get("tf") for m in members))
-    lines.append(f"hnew tf={htf or '-'} fill={int(hfill)} ha={int(ha)} life={'-' if life is None else life} "
+    if programs and rng.random() < 0.01:
+        lines.append("hmember form=bad")   # InvalidIndicator from the constructor (after the default manager was built)
+    lines.append(f"hnew tf={htf or '-'}{_tfenum(rng, htf)} fill={int(hfill)} ha={int(ha)} life={'-' if life is None else life} "
                  + wire.enc_candles(parts[0]))
     lines += ["hcalc", "hsnap"]
     names = []
@@ -342,10 +446,22 @@ def gen_hexital(rng, size, ha_ok=False, life_ok=False, programs=True, enc=None):
                     sp2 = dict(rng.choice(members))
                     if "input" in sp2:
                         sp2["input"] = rng.choice(["high", "low", "open"])
-                lines.append(f"hmember {specs.spec_params(sp2)} form=obj")
+                if rng.random() < 0.35:
+                    # on a timeframe the Hexital may not hold yet: add_indicator builds that manager from the default manager's candles
+                    unit, k_ = (htf[0], int(htf[1:])) if htf else ("T", rng.choice([1, 5]))
+                    sp2 = dict(sp2, tf=f"{unit}{k_ * rng.choice([1, 2, 3, 4, 5, 7])}")
+                lines.append(f"hmember {specs.spec_params(sp2)} form={rng.choice(['obj', 'used'])}")
                 lines.append("hadd")
+            elif k < 0.9:
+                lines.append("hadd")    # add_indicator([]): nothing to validate
+            # the members as objects / as configuration, after whatever the program did to them
+            if rng.random() < 0.4:
+                lines.append("hacc indicator_settings")
+                lines.append(f"hacc indicator member={rng.choice(member_names + ['EMA_3'])} what={rng.choice(['name', 'active', 'has_reading', 'reading', 'reading_count'])}")
             lines.append("hcalc")
             lines.append("hsnap")
+    if programs and rng.random() < 0.05:
+        lines += ["hmember form=bad", "hadd", "hsnap"]   # neither an Indicator nor a dict: InvalidIndicator (at the end: the scenario stops there)
     meta.update({"members": len(members), "htf": bool(htf), "mixed_tf": any(m.get("tf") for m in members), "enc": enc,
                  "ha": ha, "life": life is not None, "schedule": shape, "n": n})
     return lines, meta
@@ -385,6 +501,13 @@ def gen_access(rng, size):
     name = _probe_name(spec)
     fields = DICT_FIELDS.get(spec["kind"], [])
     lines = [f"ind {specs.spec_params(spec)} " + wire.enc_candles(parts[0]), "icalc"]
+    fed = list(parts[0])
+    try:
+        probe = specs.build_indicator({**spec, "fill": False, "ha": False, "life": None}, [])
+        probe.calculate()
+        child_names = [i.name for i in list(probe.sub_indicators.values()) + list(probe.managed_indicators.values())]
+    except Exception:  # noqa
+        child_names = []
 
     def probes(count):
         out = ["iacc name", "iacc active", "iacc has_reading", "iacc reading", "iacc prev_reading", "iacc as_list", "iacc reading_count"]
@@ -396,16 +519,44 @@ def gen_access(rng, size):
         for _ in range(3):
             out.append(f"iacc reading_period period={rng.randint(1, 8)} name={rng.choice(['close', name])} idx={rng.randint(-2, max(count, 1))}")
             out.append(f"iacc candles_sum length={rng.randint(1, 8)} name={rng.choice(['close', 'volume', name])} idx={rng.randint(-2, max(count, 1))}")
+        # utils.candles.reading_period itself, with and without an index
+        out.append(f"iacc reading_period_fn period={rng.randint(0, 6)} name={rng.choice(['close', name])}" + rng.choice(["", "", f" idx={rng.randint(-2, max(count, 1))}"]))
+        # read_candle: a candle of the object's own list / a fresh candle that is in no list
+        for _ in range(3):
+            out.append(f"iacc read_candle idx={rng.randint(-count - 1, count)}{rng.choice([q, '', ' name=' + rng.choice(['close', 'high_low', 'positive', 'volume', 'Zmissing'])])}")
+        if fed:
+            out.append(f"iacc read_candle c={_csv(rng.choice(fed))}{rng.choice([q, ' name=close', ' name=negative', ' name=realbody'])}")
+        # the manager's find_indicator (TRUTHY readings only: 0 / False / 0.0 do not count) and candle equality
+        out += ["iacc find", f"iacc find{q}", "iacc find name=" + rng.choice(["volume", "positive", "negative", "realbody", "Zmissing", name])]
+        for _ in range(2):
+            i = rng.randint(-count - 1, count)
+            out.append(f"iacc ceq i={i} j={rng.choice([i, i, i - count if i >= 0 else i + count, rng.randint(-count - 1, count)])}")
+        if fed:
+            j = rng.randrange(len(fed))
+            out.append(f"iacc ceq i={rng.choice([j, j - len(fed)])} c={_csv(_twin(rng, fed[j]))}")
+        # utils.indexing called directly (validate_index is used by nothing in the library; None indices)
+        for _ in range(2):
+            ix = rng.choice(["None", "None", str(rng.randint(-count - 2, count + 1))])
+            out.append(f"util {rng.choice(['validate_index', 'validate_index', 'absindex', 'valid_index'])} idx={ix} len={rng.choice([count, count, 0, 1])}"
+                       + (f" default={rng.randint(-count - 1, count + 1)}" if rng.random() < 0.5 else ""))
         return out
+
+    def purge_by_name():
+        """CandleManager.purge(<one name>) on the object's manager: that key only (helper series stay), then calculate() refills"""
+        tgt = rng.choice([name, name, name] + child_names + ["Zmissing"])
+        return [f"ipurgename name={tgt}", "isnap", "icalc", "isnap"]
 
     consumed = len(parts[0])
     lines += probes(consumed) + ["isnap"]
     for p in parts[1:]:
         lines.append("iapp " + wire.enc_candles(p))
         consumed += len(p)
+        fed += list(p)
         if rng.random() < 0.5:
             lines += probes(consumed)
         lines.append("isnap")
+        if rng.random() < 0.12:
+            lines += purge_by_name()
     meta.update({"kind": spec["kind"], "schedule": shape, "n": n})
     return lines, meta
 
@@ -415,12 +566,14 @@ def gen_hexital_access(rng, size):
     lines, meta = gen_hexital(rng, min(size, 30), programs=False)
     # names of the members, from the real constructors (also compared through the `ok name=` lines)
     names = []
+    fields = {}
     for l in lines:
         if l.startswith("hmember "):
             ps = dict(t.split("=", 1) for t in l.split()[1:] if "=" in t)
             ps = {k: (None if v == "-" else v) for k, v in ps.items()}
             try:
                 names.append(_probe_name(specs.params_to_spec(ps)))
+                fields[names[-1]] = DICT_FIELDS.get(ps["kind"], [])
             except Exception:  # noqa
                 pass
     out = []
@@ -430,6 +583,21 @@ def gen_hexital_access(rng, size):
             nm = rng.choice(names + ["Nope_1"])
             out += [f"hacc has_reading name={nm}", f"hacc reading name={nm}", f"hacc prev_reading name={nm}", f"hacc as_list name={nm}",
                     f"hacc reading name={nm} idx={rng.randint(-5, 5)}", "hacc names"]
+            # reading_as_list dispatches on the part before the dot
+            fs = fields.get(nm) or ["x"]
+            if rng.random() < 0.5:
+                out.append(f"hacc as_list name={nm}.{rng.choice(fs + ['Zmissing'])}")
+            # index=None is no valid index for any manager
+            if rng.random() < 0.3:
+                out.append(f"hacc reading name={nm} idx=None")
+            # Hexital.indicator(name): the member object itself, asked the same questions (KeyError for an unknown name)
+            if rng.random() < 0.6:
+                what = rng.choice(["name", "active", "has_reading", "reading", "prev_reading", "as_list", "reading_count",
+                                   f"reading idx={rng.randint(-5, 5)}", f"read_candle idx={rng.randint(-5, 5)}", "find",
+                                   f"as_list name={nm}.{rng.choice(fs)}", f"reading_period period={rng.randint(1, 5)} idx={rng.randint(-2, 6)}"])
+                out.append(f"hacc indicator member={nm} what={what}")
+            if rng.random() < 0.4:
+                out.append("hacc indicator_settings")
     return out, meta
 
 
@@ -473,6 +641,10 @@ def _mk_analysis_component(fn):
             base = " ".join(toks)
             for i in list(range(-n - 1, n + 1)) + [None]:
                 lines.append(f"ana {base}" + ("" if i is None else f" idx={i}"))
+            if fn in ("positive", "negative"):
+                # the same function handed ONE candle (the index argument is then ignored)
+                for _ in range(3):
+                    lines.append(f"ana {base} one={rng.randint(-n - 1, n)}" + rng.choice(["", f" idx={rng.randint(-n - 1, n)}"]))
         meta.update({"fn": fn, "n": n})
         return lines, meta
 
